@@ -1369,3 +1369,6 @@ package kcache
         (= {c.readych} {readych}) (= {c.cache} {cache}) (= {c.subscription} {subscription}) (= {c.publisher} {publisher}))
   ensures (=> (= result1 vnil) (not (= result0 vnil)))
 @*/
+
+/*@ nonblocking-send kcache._subscription.outch kcache.filterSubscription.outch kcache._watchSession.outch (*kcache._watcher).run:outch
+@*/
